@@ -6,23 +6,23 @@ ROOT = os.path.dirname(os.path.dirname(os.path.abspath(__file__)))
 # id -> (technique, level text, level note, design ref)
 CHECKS = {
  "C01": ("directed data-flow generation with three oracles: (1) a model-independent invariant (default escaper, no safe, everything escaping: none of < > \" ' in the output), (2) a marking escape function installed with set_escape_fn whose exact bracket structure (which segments were escaped, how many times) is predicted by the reference interpreter, (3) exact text against the reference interpreter under per-template, per-call and changed-after-registration autoescape configurations",
-         "Exploration: 300k generated programs per quick run (x25 thorough, up to 8 hops) of 1-3 flows: 10 source kinds (incl. hot map keys, bytes, host-made safe strings, __tera_context) x 50 hop kinds (assignments, loops over arrays/strings/maps, captures, filter sections, includes, blocks, super(), component arguments in three spellings, component bodies and results, pass-through operators, 15 string filters, container wrapping, host filters/functions registered safe and not safe) x 5 sink shapes (WritePath, WriteTop, inside captures/filter sections/containers) x 8 configurations; every hop/source/sink kind has a coverage floor; render_component API enumerated for 16 hot strings x both flags x body/no body.",
+         "Exploration: 900k generated programs per quick run (x10 thorough, up to 8 hops) of 1-3 flows: 10 source kinds (incl. hot map keys, bytes, host-made safe strings, __tera_context) x 50 hop kinds (assignments, loops over arrays/strings/maps, captures, filter sections, includes, blocks, super(), component arguments in three spellings, component bodies and results, pass-through operators, 15 string filters, container wrapping, host filters/functions registered safe and not safe) x 5 sink shapes (WritePath, WriteTop, inside captures/filter sections/containers) x 8 configurations, in a share of which the escaping suffix of every template name is re-spelled (upper and mixed case, no dot, non-ASCII) and configured with autoescape_on; every hop/source/sink kind has a coverage floor; render_component API enumerated for 16 hot strings x both flags x body/no body.",
          "Trusted base: the reference interpreter's escaping rules (escape at the sink, safe marks; Appendix A of DESIGN.md). `&` is not part of the invariant (the statement lists four characters; slicing an already escaped capture may cut an entity).",
          "DESIGN.md section 4 C01"),
  "C10": ("stateful model-based testing: generated histories of add / batch add / replace / autoescape reconfiguration over a pool of interrelated valid and invalid sources; the model is the map name -> source plus the suffix list, and after every call the instance must be observably equal to a fresh instance built in one batch from the resulting set (success) or the previous set (failure)",
-         "Exploration: 120k histories of up to 12 operations (quick; x15 thorough, up to 40) = ~700k add calls of which ~70% fail in one of the ten invalid ways, each followed by a full observation (names, renders with 3 contexts, render_block x 4, template variables, component definitions and API renders) against a fresh instance; 60k final sets reached through two different histories.",
+         "Exploration: 360k histories of up to 12 operations (quick; x6 thorough, up to 40) over a pool with four inheritance levels (so the root of a chain can change its own parent) = ~2M add calls of which ~70% fail in one of the ten invalid ways, each followed by a full observation (names, renders with 3 contexts, render_block x 4, template variables, component definitions and API renders) against a fresh instance; 180k final sets reached through two different histories.",
          "Trusted base: Tera::new + add_raw_templates on a fresh instance as the reference. Acceptance is compared only in the stated direction (an incremental add may fail where a batch succeeds); error results are compared by kind, not text.",
          "DESIGN.md section 4 C10"),
  "C11": ("model-based differential on generated template graphs: an independent graph analysis (name resolution through fallback prefixes, dangling edges, extends cycles, include cycles) decides accepted/rejected and, for single-fault sets, the error kind; every accepted set is rendered from every template and must return; registration and rendering run in crash-isolated worker subprocesses",
-         "Exploration: 900k random graphs over 2-9 templates and 200k chains/rings of 2-32 per quick run (x10 thorough), with include edges placed at top level, in blocks, component bodies, captures, dead branches and loops, missing targets, three directories of which up to two are fallback prefixes in either order (short and full spellings, exact names shadowing prefixed ones); 16 hand-written sets incl. the F9/F10 shapes.",
+         "Exploration: 900k random graphs over 2-9 templates and 200k chains/rings of 2-32 per quick run (x10 thorough), with include edges placed at top level, in blocks, component bodies, captures, dead branches and loops, missing targets, three directories of which up to two are fallback prefixes in either order (short and full spellings, exact names shadowing prefixed ones); 16 hand-written sets incl. the F9/F10 shapes; include and extends rings (also entered from a tail) and acyclic chains of 33..300 templates, densely around 128; 300k graphs reached incrementally (stubs without edges first, then every template re-added with its real source in a permuted order: after every accepted re-add the graph held must be acceptable, a refused re-add must have made it faulty).",
          "Trusted base: the 60-line graph analysis in harness/src/props/c11.rs and the process supervisor. Termination is observed for depths <= 32 in the reference environment; with several fault classes only accepted-vs-rejected is compared.",
          "DESIGN.md section 4 C11"),
  "C12": ("fault injection with a position oracle: exactly one fault of a known kind is planted at a recorded byte range in a generated multi-template scaffold; the reported template name, byte range, line and column are compared with the planted position and with each other (line/column recomputed from the byte offsets), the rendered Display text with the source line and with the chain of call sites; span validity on every positioned error of generated C02 expressions",
-         "Exploration: 150k render faults (50 kinds x 8 positions: parent top level and block, child block, include depths 1-3, component-call body, component definition body; includes wrapped in filter sections, set blocks or component bodies) and 75k syntax faults (30 kinds) per quick run (x20 thorough) behind generated multi-line prefixes with CRLF, tabs, combining and 4-byte characters; all kind x position combinations once without prefix; 150k generated expressions in noisy multi-line spelling (about 60% raise a positioned error).",
+         "Exploration: 150k render faults (50 kinds x 8 positions: parent top level and block, child block, include depths 1-3, component-call body, component definition body; includes wrapped in filter sections, set blocks or component bodies) and 75k syntax faults (30 kinds) per quick run (x20 thorough) behind generated multi-line prefixes with CRLF, tabs, combining and 4-byte characters; all kind x position combinations once without prefix; 150k generated expressions in noisy multi-line spelling (about 60% raise a positioned error); span / template name / display validity on every registration error of 150k token-soup sources behind generated prefixes, 75k mutated repository inputs and every third prefix (thorough: every prefix) of every repository input.",
          "Trusted base: the recomputation of (line, column) from a byte offset (line = newlines before + 1, column = characters since the line start) and the planted ranges. For syntax faults the position is pinned only for unknown tags, unterminated constructs, mismatched end tags and end of input; elsewhere the span must not end before the fault. Render-time limits reported without a position (recursion depth) are outside the statement.",
          "DESIGN.md section 4 C12"),
  "C05": ("model-based differential: generated component definitions and call sites against a reference binder (declared ∪ defaults, rest map, unknown/missing/type errors, inferred types) and the reference interpreter on a fresh scope, with observation points over the caller's whole name pool inside every component body (isolation); render_component through the API against the same binder; enumeration of fallback-prefix priority configurations; crash-isolated recursion shapes on an 8 MiB stack",
-         "Exploration: 240k generated sets (quick; x20 thorough) of 1-4 components over three files, called inline / with body / in loops / in captures / from an included template / from other components, with named, shorthand and spread attributes (literals of every kind, caller variables, right and wrong types, missing and extra); 1.7M render_component comparisons; 30k priority configurations; 70 recursion cases (direct, mutual, through includes, through bodies, in loops and captures; depth 0..100000 and unbounded).",
+         "Exploration: 240k generated sets (quick; x20 thorough) of 1-4 components over three files, called inline / with body / in loops / in captures / from an included template / from other components, with named, shorthand and spread attributes (literals of every kind, caller variables, right and wrong types, missing and extra); 1.7M render_component comparisons; 30k priority configurations; 118 recursion cases (10 call paths: direct, mutual, through one and two includes, through bodies, in loops and captures, as attribute values, entered from an included template or a parent's block; depth 0..100000 and unbounded) plus the one-limit relation: the deepest nesting that renders is scanned for every call path and must be the same.",
          "Trusted base: the reference binder bind_component and interpreter in harness/src/stmt.rs. Not specified and therefore discarded: undefined attribute values, explicit `body` attributes, spreads with non-string keys; duplicates at a shadowed priority are accepted or rejected by the engine depending on template-name order (not claimed either way).",
          "DESIGN.md section 4 C05"),
  "C04": ("model-based differential: generated inheritance chains (block trees, overrides, nested fresh blocks, super() in several positions, skipped levels) rendered from every template of the chain and block by block, against a reference resolver written from the definition; registration in a random permutation (one batch) and parents-first one by one must behave the same",
@@ -30,23 +30,23 @@ CHECKS = {
          "Trusted base: the reference resolver in harness/src/stmt.rs (lineage = definitions most-derived first; super() = next definition). Nested blocks introduced by overrides always get fresh names (no cyclic nesting via super(), finding F9); blocks executed more than once in a render are not judged by render_block.",
          "DESIGN.md section 4 C04"),
  "C18": ("differential between output channels (render vs render_to into a Vec, a 1-byte writer, a short-write writer with interruptions) and fault enumeration of a failing writer (every byte offset, every write call) with the prefix invariant, for all four API variants; purity (repeatability, context equality); barrier-released thread stress against a sequential baseline; compile-time Send + Sync probe crate",
-         "Fault enumeration + exploration: a fixed rich instance (inheritance with super(), nested blocks, block in a capture, includes 2 deep, components, failing templates) x 28 requests x 12 contexts and 120k generated C03 programs (quick; x20 thorough); every failure offset for outputs <= 400 bytes (sampled beyond) and every write call; 72k concurrent renders on 12 threads per quick run while clones are created, reconfigured and dropped.",
-         "Trusted base: the three test writers in harness/src/props/c18.rs. Interleavings are sampled by the OS scheduler, not enumerated (rendering takes &self, per-render state lives in State); a data race needing a precise interleaving is out of reach of this technique. Send/Sync is a compile-time fact checked by building harness/probe.",
+         "Fault enumeration + exploration: a fixed rich instance (inheritance with super(), nested blocks, block in a capture, includes 2 deep, components, failing templates) x 28 requests x 12 contexts and 120k generated C03 programs (quick; x20 thorough); contexts carry byte strings with valid, invalid and truncated UTF-8; every failure offset for outputs <= 400 bytes (sampled beyond) and every write call; 72k concurrent renders on 12 threads per quick run while clones are created, reconfigured and dropped.",
+         "Trusted base: the three test writers in harness/src/props/c18.rs. Interleavings are sampled by the OS scheduler, not enumerated (rendering takes &self, per-render state lives in State); a data race needing a precise interleaving is out of reach of this technique. Send/Sync is a compile-time fact checked by building harness/probe (also used as the deciding step when the harness itself, which shares the engine between threads, no longer builds).",
          "DESIGN.md section 4 C18"),
  "C07": ("robustness search with an end-of-render state invariant (cfg-guarded hook) and an exhaustive reference-injection enumeration: generated valid programs rendered with hostile contexts in crash-isolated workers (oracle: Ok(valid UTF-8) or Err, empty engine stacks after success, no missing-reference failure at render time); every unknown filter/test/function/component/include/parent/block spelled in every syntactic position must be rejected at add time while the same position with a known name is accepted",
-         "Exploration: 440k generated renders per quick run (x20 thorough): expressions placing each of the 55 built-ins with arbitrary keyword subsets over hostile values (invalid UTF-8 bytes, 64/128-bit extremes, NaN/inf/-0, explicit undefined in containers, non-string keys, maps past the scan cutoff, 23-element mixed arrays), C02 expressions and C03 programs under the same contexts, inheritance+component sets rendered whole/by block/by component; 7 very large values through every built-in; 11.7k injections (8 expression references x 33 expression positions x 19 statement positions, 5 statement references x 19, 6 whole-template cases, each unknown + known control).",
+         "Exploration: 440k generated renders per quick run (x20 thorough): expressions placing each of the 55 built-ins with arbitrary keyword subsets over hostile values (invalid UTF-8 bytes, 64/128-bit extremes, NaN/inf/-0, explicit undefined in containers, non-string keys, maps past the scan cutoff, 23-element mixed arrays), C02 expressions and C03 programs under the same contexts, inheritance+component sets rendered whole/by block/by component; 24k generated inheritance chains (C04 generator) with every template and every block as entry point; 48k programs with break/continue planted at arbitrary positions (what the parser accepts must leave the stacks empty); 7 very large values through every built-in; 11.7k injections (8 expression references x 33 expression positions x 19 statement positions, 5 statement references x 19, 6 whole-template cases, each unknown + known control).",
          "Trusted base: the hook check_state_empty in tera/src/verif.rs and the process supervisor. Programs whose reference evaluation exceeds a work budget are discarded before the engine runs (counted); worker timeouts are inconclusive.",
          "DESIGN.md section 4 C07"),
  "C06": ("crash-isolated robustness search: generated token soup (default and generated delimiter sets), token-level mutation/splicing and exhaustive prefix truncation of the repository's snapshot inputs, generated template names, and an enumeration of deep/flat/chain shapes each in its own process on an 8 MiB stack; the oracle is returns-Ok-or-Err (error must format), observed from a supervisor that pinpoints any worker death by re-running the shard in trace mode",
-         "Exploration: 2.5M generated inputs per quick run (x20 thorough) of which >85% contain a start delimiter and reach the parser, 38k prefixes (exhaustive over 248 seed files), 30 nesting forms x 10 depths up to 100000, 19 flat shapes up to 100000 elements, 12 chain forms up to 100000 links.",
+         "Exploration: 2.8M generated inputs per quick run (x20 thorough) of which >85% contain a start delimiter and reach the parser, 300k of them under arbitrary delimiter candidates (every length and shape; whatever set_delimiters accepts is then used to register soup with comments), 38k prefixes (exhaustive over 248 seed files), 30 nesting forms x 10 depths up to 100000, 19 flat shapes up to 100000 elements, 12 chain forms up to 100000 links.",
          "Trusted base: the process supervisor (signals/timeouts) in harness/src/core.rs. Reference environment: optimised build, 8 MiB stack for the deep family; timeouts are inconclusive. Known findings: 11 chain forms overflow the stack, the unknown-reference report is quadratic (probed at 3000 occurrences, larger shapes excluded).",
          "DESIGN.md section 4 C06"),
  "C08": ("model-based: sources are spelled from generated segment trees and compared with reference whitespace semantics on the segment list (exact output); metamorphic re-spelling of the same tree with a different accepted delimiter set; identity on sources without a start delimiter",
-         "Exploration: 400k segment trees under the default delimiters, 200k under generated accepted delimiter sets (ASCII pairs and two-byte characters, ends possibly equal to each other or to a start), 200k plain texts (quick; x20 thorough); text heavy in ASCII/Unicode whitespace, lone delimiter characters, end delimiters and characters sharing a lead or continuation byte with a two-byte delimiter; an independent `-` on every side of expressions, comments, raw tags (four positions), set tags and if/for/filter/set-block pairs.",
+         "Exploration: 1.2M segment trees under the default delimiters, 600k under generated accepted delimiter sets (ASCII pairs and two-byte characters, ends possibly equal to each other or to a start), 600k plain texts (quick; x8 thorough); text heavy in ASCII/Unicode whitespace, lone delimiter characters, end delimiters and characters sharing a lead or continuation byte with a two-byte delimiter; an independent `-` on every side of expressions, comments, raw tags (four positions), set tags and if/for/filter/set-block pairs.",
          "Trusted base: the 60-line reference semantics in harness/src/props/c08.rs. Sources where a join accidentally forms a start delimiter or a comment/raw body contains its terminator early are excluded by construction and counted; whitespace means Unicode White_Space.",
          "DESIGN.md section 4 C08"),
  "C09": ("translation-validation style differential through cfg-guarded hooks: every generated template set is compiled with the fusion pass off and on; (1) structural lock-step walk over the recorded instruction listings (only LoadName LoadAttr* [WriteTop] groups merged, no absorbed jump target, every jump lands on the image of its target), (2) both compilations rendered with the same generated contexts must agree",
-         "Exploration: 570 fixed jump-next-to-path shapes x 18 contexts enumerated completely, then 210k generated sets (quick; x25 thorough): path-heavy programs (and/or, ternaries, if/elif, loops with break/continue, comprehensions, kwargs, captures, ?. and __tera_context), the C02 expression and C03 statement generators, inheritance and component chunks; ~300k chunks structurally checked per quick run.",
+         "Exploration: 570 fixed jump-next-to-path shapes x 18 contexts enumerated completely, then 420k generated sets (quick; x12 thorough): path-heavy programs (and/or, ternaries, if/elif, loops with break/continue, comprehensions, kwargs, captures, ?. and __tera_context), the C02 expression and C03 statement generators, inheritance and component chunks; ~300k chunks structurally checked per quick run.",
          "Trusted base: the hooks in tera/src/verif.rs (additive, dead without --cfg tera_verif) and the Debug listing of Chunk. Contexts in which the outcome depends on map iteration order are filtered out with the reference interpreter (used as a filter only) and counted.",
          "DESIGN.md section 4 C09"),
  "C03": ("differential against a reference interpreter (scope chain, loop bookkeeping, capture stack, includes, autoescape at the sink) over proptest-generated multi-template programs instrumented with observation points that print every name of a shared pool (and loop.*) after every statement; order-insensitive multiset comparison for loops over multi-entry maps",
@@ -58,7 +58,7 @@ CHECKS = {
          "Trusted base: the reference evaluator (harness/src/expr.rs) and the built-in references of C17. Outcomes the documentation leaves open are discarded and counted (undefined as operand of ==/!=/~/in, undefined stored in literals, map iteration order, open built-in contracts). Depth bounded by 18 of the parser's 40.",
          "DESIGN.md section 4 C02"),
  "C13": ("differential against an exact reference (checked/256-bit integer arithmetic, exact float-vs-integer comparison) over an exhaustive boundary grid in every engine encoding plus proptest-generated pairs; metamorphic re-encoding",
-         "Exploration: every ordered pair of a 450-value boundary grid (each integer in every encoding that can hold it, floats around every power-of-two boundary, NaN/inf/-0) under all 13 operators and negation is enumerated completely, then 400k (quick) / 16M (thorough) random pairs; the oracle is exact, so any wrapped, truncated, mis-compared or encoding-dependent result inside the explored space is reported.",
+         "Exploration: every ordered pair of a 450-value boundary grid (each integer in every encoding that can hold it, floats around every power-of-two boundary, NaN/inf/-0) under all 13 operators and negation is enumerated completely, then 1.6M (quick) / 19M (thorough) random pairs; the oracle is exact, so any wrapped, truncated, mis-compared or encoding-dependent result inside the explored space is reported.",
          "Trusted base: Rust std checked i128 arithmetic and f64 operations used by the reference; float // % ** are compared against std div_euclid/rem_euclid/powf. Not a proof for all 2^256 pairs.",
          "DESIGN.md section 4 C13"),
  "C14": ("differential against a transcription of CPython's PySlice_AdjustIndices over an exhaustive (sequence x start x stop x step) grid including 128-bit extremes, plus proptest-generated sequences/parameters and character-wise agreement laws on multi-byte strings",
@@ -70,19 +70,19 @@ CHECKS = {
          "Trusted base: own base64/percent/JSON reference readers; serde_json as a second JSON acceptor. Values with non-finite floats or keys colliding after stringification are outside the statement and discarded (counted).",
          "DESIGN.md section 4 C20"),
  "C15": ("differential against a reference equality/ordering (exact number comparison, structural containers) plus algebraic laws (reflexive, symmetric, transitive, trichotomy, congruence) stated on the engine's own answers, over proptest-generated near-equal value families; model-based map lookup (reference map keyed by mathematical value) for every lookup form",
-         "Exploration: 480k generated pairs/triples (quick) of values of every kind in random integer encodings, safe marks, key spellings and map insertion orders, each compared under the six operators in both directions; 80k arrays through unique/sort; 200k (map, key) lookups through m[k], m.k (fused and unfused), k in m, get, is containing, with maps on both sides of the attribute-scan cutoff.",
+         "Exploration: 1.4M generated pairs/triples (quick; x10 thorough) of values of every kind in random integer encodings, safe marks, key spellings and map insertion orders, each compared under the six operators in both directions; 240k arrays through unique/sort; 600k (map, key) lookups through m[k], m.k (fused and unfused), k in m, get, is containing, with maps on both sides of the attribute-scan cutoff.",
          "Trusted base: the reference order in harness/src/mval.rs. Explicit undefined values are not generated (the statement does not define their comparison); sort inputs containing top-level none are left to C16.",
          "DESIGN.md section 4 C15"),
  "C16": ("validity predicates and reference implementations over proptest-generated arrays: sort checked in both directions (a refusal must be justified by a missing attribute or an incomparable non-none pair; a result must be the exact stable permutation), unique/group_by against reference partitions, metamorphic agreement laws (reverse twice, split then join, first/last/nth vs indexing, length vs iteration, keys/values/pairs position-wise)",
-         "Exploration: 120k generated inputs per family (quick; x30 thorough), arrays up to 60 elements (past the 21-element threshold of std's sort checks) with kind classes, inserted none/foreign elements, ties between differently printed equal keys, attribute paths k / k.j / k.0 on tagged elements so the permutation is fully observable.",
+         "Exploration: 360k generated inputs per family (quick; x10 thorough), arrays up to 60 elements (past the 21-element threshold of std's sort checks) with kind classes, inserted none/foreign elements, ties between differently printed equal keys, attribute paths k / k.j / k.0 on tagged elements so the permutation is fully observable.",
          "Trusted base: reference order of mval.rs. group_by with a missing attribute: error and discard both accepted (docs and MIGRATION.md disagree); keys colliding after stringification and explicit undefined elements are not generated.",
          "DESIGN.md section 4 C16"),
  "C17": ("exhaustive built-in x receiver x keyword-argument matrix plus proptest-generated cells, each compared with a reference implementation or law where the documentation fixes the contract (Appendix B of DESIGN.md) and checked for totality everywhere; type-test partition laws stated on the engine's own answers",
-         "Exploration: all 36 filters + 17 tests + 2 functions x 59 receivers of every kind x every combination of a 35-value argument pool on each keyword (922k cells, enumerated completely in the quick tier), then 450k generated cells (x30 thorough) with Unicode text incl. special-casing characters, numerals in every base with prefixes/signs/fractions, boundary numbers, and well-typed arguments so the contracts (not only the error paths) are exercised.",
+         "Exploration: all 36 filters + 17 tests + 2 functions x 59 receivers of every kind x every combination of a 35-value argument pool on each keyword (922k cells, enumerated completely in the quick tier), then 450k generated cells (x10 thorough) with Unicode text incl. special-casing characters, numerals in every base with prefixes/signs/fractions, boundary numbers, and well-typed arguments so the contracts (not only the error paths) are exercised.",
          "Trusted base: the reference implementations in harness/src/props/c17.rs, written from docs/doc comments/unit-test tables; Rust std for to_uppercase/to_lowercase/parse::<f64>. Cells whose contract the documentation leaves open are totality-only (label spec:total, counted).",
          "DESIGN.md section 4 C17, Appendix B"),
  "C19": ("round-trip T -> Value -> T (by value and by reference) over a family of 63 concrete Rust types with hand-written proptest strategies; differential of the converted Value and of what `{{ v }}` prints against a reference model computed from the same Rust value; metamorphic interchangeability of Context::insert / insert_value / from_serialize; refusal of unrepresentable map keys",
-         "Exploration: 6k generated values per type (quick; x30 thorough) for every primitive width (with the extremes of every narrower width), f32/f64 incl. NaN/inf/-0/subnormals, char, String around the 21-byte inline threshold, Option, Vec, Box, tuples 1-4, unit/newtype/tuple structs, structs, every enum variant shape, BTreeMap/HashMap keyed by String/char/bool/every integer width, and nested combinations.",
+         "Exploration: 18k generated values per type (quick; x10 thorough) for every primitive width (with the extremes of every narrower width), f32/f64 incl. NaN/inf/-0/subnormals, char, String around the 21-byte inline threshold, Option, Vec, Box, tuples 1-4, unit/newtype/tuple structs, structs, every enum variant shape, BTreeMap/HashMap keyed by String/char/bool/every integer width, and nested combinations.",
          "Trusted base: serde derive and the hand-written reference models (Fam::model). Option directly in Option and Option<()> excluded per the statement; NaN payload bits not compared.",
          "DESIGN.md section 4 C19"),
 }
